@@ -59,6 +59,15 @@ func H_C20_j2x() {
 		vAssert(err == nil && string(got) == string(want), "j2x: JsonToXml equals NewMapJson then Xml")
 		w := &vWriter{}
 		vAssert(JsonToXmlWriter(j, w) == nil && string(w.buf) == string(want), "j2x: JsonToXmlWriter writes NewMapJson then Xml")
+		// a top-level JSON list is a document too (NewMapJson wraps it under "object")
+		jl := []byte("[{\"a\":\"1\"},{\"a\":\"2\"}]")
+		ml, _ := NewMapJson(jl)
+		wantl, _ := ml.Xml()
+		gotl, lerr := JsonToXml(jl)
+		wl := &vWriter{}
+		lwerr := JsonToXmlWriter(jl, wl)
+		vAssert(lerr == nil && string(gotl) == string(wantl), "j2x: JsonToXml of a top-level list equals NewMapJson then Xml")
+		vAssert(lwerr == nil && string(wl.buf) == string(wantl), "j2x: JsonToXmlWriter of a top-level list writes the same")
 	case 3:
 		raw, x, err := JsonReaderToXml(bytes.NewReader(j))
 		want, _ := core.Xml()
